@@ -55,7 +55,7 @@ fn mem_cfg(b: &mut Bytes, depth: u8) -> Cfg {
 fn data(b: &mut Bytes) -> DataSpec {
     let mut d = DataSpec { kind: b.u8(), len: b.u16(), seed: b.u8() };
     // keep fuzz iterations fast: cap the rare very large contents
-    if d.kind % 32 == 25 {
+    if (25..=27).contains(&(d.kind % 32)) {
         d.kind = 19;
     }
     d
@@ -128,7 +128,7 @@ pub fn handles_case(d: &[u8]) -> Result<(), String> {
             script.push(match b.u8() % 12 {
                 0..=5 => ROp::Read(b.u8(), b.u16()),
                 6..=9 => ROp::Seek(whence(&mut b), off(&mut b)),
-                10 => ROp::ReadToEnd,
+                10 => ROp::ReadToEnd(b.u8()),
                 _ => ROp::ReadExact(b.u8(), b.u16()),
             });
         }
